@@ -292,6 +292,24 @@ func (w *World) checkReturned(class, what string, s atree.Storable, old MVal) *V
 	if s == nil {
 		return w.viol(class, "%s: library returned nil, model had %s", what, describe(old))
 	}
+	if w.Cfg.LazyDispose {
+		// like a consumer that frees a referenced large value without reading it: only the shape is checked
+		in, _ := unwrapM(old)
+		cur := s
+		for {
+			ws, ok := cur.(SomeS)
+			if !ok {
+				break
+			}
+			cur = ws.S
+		}
+		if _, isStr := in.(MStr); isStr {
+			if _, isRef := cur.(atree.SlabIDStorable); isRef {
+				w.Stats.Inc("dispose.unloaded-reference")
+				return nil
+			}
+		}
+	}
 	v, err := s.StoredValue(w.Storage)
 	if err != nil {
 		return w.viol(class, "%s: StoredValue failed: %v", what, err)
